@@ -161,10 +161,48 @@ def cases_http(tier):
     for i, (w, body) in enumerate(cases_jsonclass("quick")):
         if i % 3 == 0:
             yield (ws[0], body)
+    for seed in B.SEEDS[:6] + ["", "5", "[]"]:
+        for w in ws:
+            try:
+                seed.encode("ascii")
+            except UnicodeEncodeError:
+                continue
+            yield (w, ("TRUNCATED", seed))
+
+
+def check_truncated(key, body):
+    """The request declares more body bytes than it delivers and the client half-closes: the handler must still answer."""
+    w = sc.world(key)
+    out = Out(cls="http-truncated")
+    raw = body.encode("utf-8")
+    try:
+        status, headers, reply = httpdrive.post(w.d, raw, declared=len(raw) + 7)
+    except Exception as ex:
+        return out.bad("C02/do_POST-raises-%s-on-truncated-body" % type(ex).__name__, "truncated body %r raised %r" % (body, ex))
+    spun = getattr(httpdrive.post, "last_rfile", None)
+    if spun is not None and spun.eof_reads > 50:
+        return out.bad("C02/do_POST-keeps-reading-after-end-of-body", "truncated body %r: %d reads after the end of the stream" % (body, spun.eof_reads))
+    out.cls = "http-truncated:%s" % status
+    if status not in (200, 400):
+        out.bad("C02/do_POST-status-%s-on-truncated-body" % status, "truncated body %r answered %s %r" % (body, status, reply[:200]))
+    elif status == 200 and reply:
+        try:
+            r = json.loads(reply.decode("utf-8"))
+            objs = r if isinstance(r, list) else [r]
+            for o in objs:
+                wf = ref.wellformed(o)
+                if wf:
+                    out.bad("C02/malformed-response-object/http", "truncated body %r: %s in %r" % (body, wf, reply))
+                    break
+        except ValueError:
+            out.bad("C02/reply-not-json/http", "truncated body %r -> %r" % (body, reply))
+    return out
 
 
 def check_http(case):
     key, body = case
+    if isinstance(body, tuple):
+        return check_truncated(key, body[1])
     w = sc.world(key)
     out = Out(cls="http")
     try:
